@@ -778,6 +778,48 @@ def stepReg (st : DSt) (r : Report) (ln : Nat) (cmd obs : List String) : Option 
       (st.implPsi.getD i 0).normSq != 0.0 || hist.getD i 0 == 0)
     let r := specCheck r st ln "c16.zero" zeroOk "no shots where p = 0" (toString (hist.take 16))
     some (st, r)
+  | ["bornstat", mask, shots] => do
+    -- SPEC (C07, supporting statistics): observed frequencies of measure_mask against
+    -- sum of |psi_i|^2 over the consistent basis states; chi-square far beyond any
+    -- plausible fluctuation (threshold ~ p < 1e-12), and no outcome of probability zero
+    let mask ← tokNat mask; let shots ← tokNat shots
+    let q ← st.q
+    let size := 2 ^ q.qNum
+    let m' := mask &&& (size - 1)
+    let nrm := normSqArr st.implPsi
+    let k ← obs.head?.bind tokNat
+    let pairs := (List.range k).filterMap (fun i =>
+      match tokNat (obs.getD (1 + 2 * i) ""), tokNat (obs.getD (2 + 2 * i) "") with
+      | some v, some c => some (v, c) | _, _ => none)
+    let probOf (v : Nat) : Float := (List.range size).foldl (fun acc i =>
+      if i &&& m' == v then acc + (st.implPsi.getD i 0).normSq / nrm else acc) 0
+    let values := ((List.range size).map (· &&& m')).eraseDups
+    let possible := values.filter (fun v => probOf v > 1e-12)
+    let impossibleHit := pairs.any (fun p => probOf p.1 ≤ 1e-15 && p.2 > 0)
+    let r := specCheck r st ln "c07.impossible" (!impossibleHit) "no outcome of probability 0" (String.intercalate " " (obs.take 9))
+    let chi := possible.foldl (fun acc v =>
+      let e := Float.ofNat shots * probOf v
+      let o := Float.ofNat ((pairs.find? (·.1 == v)).map (·.2) |>.getD 0)
+      acc + (o - e) * (o - e) / e) 0
+    let dof := Float.ofNat (possible.length - 1)
+    let limit := dof + 10.0 * Float.sqrt (2.0 * dof + 1.0) + 50.0
+    some (st, specCheck r st ln "c07.chi2" (chi ≤ limit) s!"chi2 <= {limit}" s!"chi2 = {chi}")
+  | ["samplestat", count, reps] => do
+    -- SPEC (C07, supporting statistics): mean and spread of the histogram cells
+    let count ← tokNat count; let reps ← tokNat reps
+    let q ← st.q
+    let (mean, rest) ← parseFVec obs
+    let (var, _) ← parseFVec rest
+    let nrm := normSqArr st.implPsi
+    let c := Float.ofNat count
+    let ok := (List.range (2 ^ q.qNum)).all (fun i =>
+      let p := (st.implPsi.getD i 0).normSq / nrm
+      let sd := Float.sqrt (c * p * (1.0 - p))
+      let m := mean.getD i 0
+      let v := var.getD i 0
+      Float.abs (m - c * p) ≤ 10.0 * sd / Float.sqrt (Float.ofNat reps) + 1.0
+        && (p * c < 50.0 || (1.0 - p) * c < 50.0 || (v ≤ 2.5 * sd * sd + 4.0 && v ≥ 0.4 * sd * sd - 4.0)))
+    some (st, specCheck r st ln "c07.moments" ok "mean = c p, variance ~ c p (1-p)" (toString (mean.take 8) ++ " " ++ toString (var.take 8)))
   | ["qvreg"] => do
     let q ← st.q
     let v := q.getVReg
